@@ -394,4 +394,152 @@ Section AllocStep.
     - cbn [step c_mode c_frames c_st]. leafJ HW.
     - cbn [step c_mode c_frames c_st]. leafJ HW.
   Qed.
+
+  Lemma W_run_le spec t p tk s rn' s' :
+    get t s = Some (mkFut None (KTask tk)) -> top_next s' = top_next s ->
+    (forall k, fid_eqb t [Z.of_nat k] = false -> (rem spec rn' s' k <= rem spec None s k)%nat) ->
+    (forall k, fid_eqb t [Z.of_nat k] = true -> (rem spec rn' s' k <= nf p)%nat) ->
+    (W spec rn' s' <= W spec (Some (t, p)) s)%nat.
+  Proof.
+    intros Hg Et H1 H2. apply W_le; [exact Et|]. intros k. destruct (fid_eqb t [Z.of_nat k]) eqn:E.
+    - pose proof E as E'. apply fid_eqb_eq in E'. subst t. rewrite (rem_rn_self_eq spec _ p s k tk Hg E). apply H2. exact E.
+    - rewrite (rem_rn_other _ _ _ _ _ E). apply H1. exact E.
+  Qed.
+
+  Lemma j_finish spec t p tk s o s' :
+    get t s = Some (mkFut None (KTask tk)) ->
+    s' = complete_task t o (set_task t (mkTask None (tk_last tk) (tk_deps tk) (tk_ctxs tk) (tk_cact tk) (tk_ds tk) (tk_iter tk) (tk_next tk)) s) ->
+    (W spec None s' <= W spec (Some (t, p)) s)%nat.
+  Proof.
+    intros Hg ->. set (tkc := mkTask None (tk_last tk) (tk_deps tk) (tk_ctxs tk) (tk_cact tk) (tk_ds tk) (tk_iter tk) (tk_next tk)).
+    assert (G : gq s (complete_task t o (set_task t tkc s))) by (unfold tkc; gqt).
+    apply (W_run_le spec t p tk s); [exact Hg|apply G| |].
+    - intros k _. apply rem_gq. exact G.
+    - intros k E. apply fid_eqb_eq in E. subst t. rewrite rem_computed; [lia|].
+      pose proof (set_task_upd s _ None tk tkc Hg) as (G1 & _).
+      rewrite (complete_task_closed _ o _ None tkc G1 eq_refl), computed_emit. apply computed_put_same.
+  Qed.
+
+  Lemma j_run spec t p fr s : CInv root res spec (mkC (MRun t p) fr s) -> JW spec (mkC (MRun t p) fr s) ->
+    J (step P (mkC (MRun t p) fr s)).
+  Proof.
+    intros HC HW. unfold JW in HW. cbn [c_mode c_st rn_of] in HW.
+    pose proof HC as (Hr & Hf & HS & Ht & (Htree & Hst & (tk & Hg))). cbn [c_mode c_frames c_st running_of] in Hf, HS, Ht, Hg.
+    destruct Hf as (old & i & ->).
+    assert (Hfr : frames_ok root MContRet [FCont t old; FExec i; FWait root; FTop]) by (cbn; eauto).
+    assert (Hp : forallb plain_ctx (tk_ctxs tk) = true) by (apply (SInv_plain _ _ _ _ _ _ HS Hg)).
+    cbn [step c_mode c_frames c_st]. unfold get_task. rewrite Hg.
+    inversion Htree as [v Ev|v Ev|e Ev|y k Hl Hk Ev|c k Hc Hk Ev|c k Hc Hk Ev]; subst p.
+    - destruct (finish_task root res spec t s tk (Ok v) _ Hr HS Ht Hg Hst Hfr) as (Hnc & HC'). cbn zeta in *.
+      rewrite Hnc. apply (J_intro spec _ HC'). unfold JW. cbn [c_mode c_st rn_of]. eapply Nat.le_trans; [|exact HW].
+      apply (j_finish spec t _ tk s (Ok v)); [exact Hg|reflexivity].
+    - destruct (finish_task root res spec t s tk (Ok v) _ Hr HS Ht Hg Hst Hfr) as (Hnc & HC'). cbn zeta in *.
+      rewrite Hnc. apply (J_intro spec _ HC'). unfold JW. cbn [c_mode c_st rn_of]. eapply Nat.le_trans; [|exact HW].
+      apply (j_finish spec t _ tk s (Ok v)); [exact Hg|reflexivity].
+    - destruct (finish_task root res spec t s tk (Err e) _ Hr HS Ht Hg Hst Hfr) as (Hnc & HC'). cbn zeta in *.
+      unfold accept_error. rewrite Hnc. apply (J_intro spec _ HC'). unfold JW. cbn [c_mode c_st rn_of]. eapply Nat.le_trans; [|exact HW].
+      apply (j_finish spec t _ tk s (Err e)); [exact Hg|reflexivity].
+    - (* Yield *)
+      destruct (SInv_inst (Some t) t y spec s HS Hl) as (spec' & (Ext & HS1 & Old) & U & A).
+      set (K := k (unwrap leaf_out y)).
+      assert (Haf : above_free s) by (apply (SInv_above_free spec (Some t) s HS)).
+      assert (H0 : (0 <= top_next s)%Z) by (apply HS).
+      assert (Hrn : rn_ok (Some (t, K)) s) by (cbn; rewrite Hg; discriminate).
+      destruct (inst_W spec' (Some (t, K)) t y s Haf H0 Hrn) as (_ & _ & _ & EW).
+      destruct (SInv_entry _ _ _ _ _ HS Hg) as ((a & Ea & Ha) & _).
+      assert (Eid : t = [Z.of_nat (Z.to_nat a)]) by (rewrite Z2Nat.id by lia; exact Ea).
+      assert (E2 : W spec' (Some (t, Yield y k)) s = (W spec' (Some (t, K)) s + ysum nfl y)%nat).
+      { unfold W, pot.
+        pose proof (sum_point_l (rem spec' (Some (t, Yield y k)) s) (rem spec' (Some (t, K)) s)
+                      (seq 0 (Z.to_nat (top_next s))) (Z.to_nat a) (seq_NoDup _ _)) as Hsp.
+        assert (Hself : fid_eqb t [Z.of_nat (Z.to_nat a)] = true) by (rewrite <- Eid; apply fid_eqb_refl).
+        assert (Hg' : get [Z.of_nat (Z.to_nat a)] s = Some (mkFut None (KTask tk))) by (rewrite <- Eid; exact Hg).
+        rewrite (rem_rn_self_eq spec' t _ s _ tk Hg' Hself), (rem_rn_self_eq spec' t _ s _ tk Hg' Hself) in Hsp.
+        assert (Hs : (list_sum (map (rem spec' (Some (t, Yield y k)) s) (seq 0 (Z.to_nat (top_next s)))) + nf K =
+                      list_sum (map (rem spec' (Some (t, K)) s) (seq 0 (Z.to_nat (top_next s)))) + nf (Yield y k))%nat).
+        { apply Hsp; [apply in_seq; lia|]. intros k1 N1.
+          assert (Ef : fid_eqb t [Z.of_nat k1] = false).
+          { destruct (fid_eqb t [Z.of_nat k1]) eqn:E; [|reflexivity]. apply fid_eqb_eq in E. rewrite Ea in E. inversion E. lia. }
+          rewrite !(rem_rn_other _ _ _ _ _ Ef). reflexivity. }
+        change (nf (Yield y k)) with (ysum nfl y + nf K)%nat in Hs. lia. }
+      assert (E1 : W spec' (Some (t, Yield y k)) s = W spec (Some (t, Yield y k)) s).
+      { unfold W, pot. f_equal. f_equal. apply map_ext. intros k1. unfold rem.
+        destruct (get [Z.of_nat k1] s) as [[[o1|] [tk0| | |]]|] eqn:G0; try reflexivity.
+        destruct (fid_eqb t [Z.of_nat k1]) eqn:E; [reflexivity|].
+        destruct (tk_gen tk0) as [g0|] eqn:Eg; [|reflexivity]. f_equal. f_equal.
+        destruct (SInv_entry _ _ _ _ _ HS G0) as (_ & o0 & _ & _ & _ & Hk0). cbn in Hk0.
+        destruct (Hk0 eq_refl) as (g' & _ & _ & _ & K4 & _).
+        { intros E'. inversion E' as [E'']. rewrite E'', fid_eqb_refl in E. discriminate. }
+        apply (unwrap_look_ext spec spec' s _ Ext K4). }
+      destruct (inst t y s) as [y' s1]. cbn [fst snd] in *.
+      assert (Hg1 : get t s1 = Some (mkFut None (KTask tk))) by (rewrite Old; [exact Hg|rewrite Hg; discriminate]).
+      rewrite Hg1.
+      set (deps := tk_deps tk ++ futs (extract y')).
+      set (tk2 := mkTask (Some k) y' deps (tk_ctxs tk) (tk_cact tk) (tk_ds tk) (tk_iter tk) (tk_next tk)).
+      pose proof (set_task_upd s1 t None tk tk2 Hg1) as U2.
+      assert (Hst' : spec' t = Some (eval (Yield y k))) by (rewrite Ext; [exact Hst|rewrite Hg; discriminate]).
+      assert (Hr' : spec' root = Some res).
+      { rewrite Ext; [exact Hr|]. destruct Ht as (o1 & tk1 & Hgr). rewrite Hgr. discriminate. }
+      assert (HS2 : SInv spec' None (set_task t tk2 s1)).
+      { apply (SInv_upd_finish spec' s1 _ t _ _ Hg1 HS1 U2); [|intros; discriminate].
+        intros Dom. destruct (SInv_entry _ _ _ _ _ HS1 Hg1) as ((n & En & Hn) & _). destruct U2 as (_ & _ & _ & D).
+        split; [exists n; rewrite D; auto|]. exists (eval (Yield y k)). split; [exact Hst'|]. split; [intros o2 E; discriminate|].
+        cbn. split; [exact Hp|]. intros _ _. exists k. split; [reflexivity|]. split; [exact Hk|].
+        split; [cbn; rewrite U; reflexivity|]. split.
+        - intros h Hin. apply Dom. apply A. exact Hin.
+        - intros h Hin. unfold deps. apply in_or_app. right. apply futs_in. apply extract_same_elements. exact Hin. }
+      assert (Ht2 : is_task root (set_task t tk2 s1)).
+      { apply (is_task_upd s1 _ t None tk2 root U2). destruct Ht as (o1 & tk1 & Hgr). exists o1, tk1.
+        rewrite Old; [exact Hgr|rewrite Hgr; discriminate]. }
+      assert (HW2 : (W spec' None (set_task t tk2 s1) <= C)%nat).
+      { eapply Nat.le_trans; [|exact HW]. rewrite <- E1, E2, <- EW.
+        destruct U2 as (G2 & Uo & _ & Ut).
+        apply (W_run_le spec' t K tk s1); [exact Hg1|exact Ut| |].
+        - intros k1 E. apply Nat.eq_le_incl. apply rem_get_eq. apply Uo. intros E'. rewrite <- E', fid_eqb_refl in E. discriminate.
+        - intros k1 E. apply fid_eqb_eq in E. rewrite E in G2. rewrite E.
+          rewrite (rem_none_eq spec' _ k1 tk2 k G2 eq_refl). cbn [tk_last tk2]. rewrite U. apply Nat.le_refl. }
+      fold deps. fold tk2. destruct (futs (extract y')) as [|d ds] eqn:Ed.
+      + apply (J_intro spec'); [|exact HW2].
+        apply CInv_intro; [exact Hr'|cbn; eauto|exact HS2|exact Ht2|].
+        exists tk2. destruct U2 as (G2 & _). split; [exact G2|]. intros h Hin. cbn [tk_last tk2] in Hin.
+        exfalso. assert (In h (futs (extract y'))) by (apply futs_in; apply extract_same_elements; exact Hin).
+        rewrite Ed in H. destruct H.
+      + apply (J_intro spec'); [|exact HW2].
+        apply CInv_intro; [exact Hr'|exact Hfr|exact HS2|exact Ht2|exact I].
+    - (* Enter *)
+      apply (J_intro spec).
+      + unfold enter_ctx, get_task. rewrite Hg.
+        set (tk1 := tk_with_ctxs tk (tk_ctxs tk ++ [c]) (tk_cact tk)).
+        pose proof (set_task_upd s t None tk tk1 Hg) as U1.
+        assert (Hp1 : forallb plain_ctx (tk_ctxs tk1) = true) by (cbn; rewrite forallb_app, Hp; cbn; rewrite Hc; reflexivity).
+        pose proof (SInv_upd_running spec s _ t tk tk1 Hg HS U1 Hp1) as HS1.
+        assert (V : forall s2, heap s2 = heap (set_task t tk1 s) -> batches s2 = batches (set_task t tk1 s) ->
+                  top_next s2 = top_next (set_task t tk1 s) -> CInv root res spec (mkC (MRun t k) [FCont t old; FExec i; FWait root; FTop] s2)).
+        { intros s2 E1 E2 E3. apply CInv_intro; [exact Hr|cbn; eauto|apply (SInv_view spec (Some t) (set_task t tk1 s)); auto| |].
+          - apply (is_task_view (set_task t tk1 s)); auto. apply (is_task_upd s _ t None tk1 root U1 Ht).
+          - split; [exact Hk|]. split; [exact Hst|]. exists tk1. destruct U1 as (G1 & _). unfold get in *. rewrite E1. exact G1. }
+        destruct c as [cid f|cid|cid var v]; apply V; reflexivity.
+      + unfold JW. cbn [c_mode c_st rn_of]. eapply Nat.le_trans; [|exact HW].
+        apply (W_run_le spec t _ tk s); [exact Hg|apply gq_enter_ctx| |].
+        * intros k0 E. rewrite (rem_rn_other _ _ _ _ _ E). apply rem_gq. apply gq_enter_ctx.
+        * intros k0 E. exact (rem_rn_self_le spec t k _ k0 E).
+    - (* Exit *)
+      apply (J_intro spec).
+      + unfold exit_ctx, get_task. rewrite Hg.
+        set (tk1 := tk_with_ctxs tk (remove_ctx c (tk_ctxs tk)) (tk_cact tk)).
+        pose proof (set_task_upd s t None tk tk1 Hg) as U1.
+        assert (Hp1 : forallb plain_ctx (tk_ctxs tk1) = true) by (cbn; apply remove_ctx_plain; exact Hp).
+        pose proof (SInv_upd_running spec s _ t tk tk1 Hg HS U1 Hp1) as HS1.
+        assert (V : forall s2, heap s2 = heap (set_task t tk1 s) -> batches s2 = batches (set_task t tk1 s) ->
+                  top_next s2 = top_next (set_task t tk1 s) -> CInv root res spec (mkC (MRun t k) [FCont t old; FExec i; FWait root; FTop] s2)).
+        { intros s2 E1 E2 E3. apply CInv_intro; [exact Hr|cbn; eauto|apply (SInv_view spec (Some t) (set_task t tk1 s)); auto| |].
+          - apply (is_task_view (set_task t tk1 s)); auto. apply (is_task_upd s _ t None tk1 root U1 Ht).
+          - split; [exact Hk|]. split; [exact Hst|]. exists tk1. destruct U1 as (G1 & _). unfold get in *. rewrite E1. exact G1. }
+        destruct (tk_cact tk); [|apply V; reflexivity].
+        unfold pause_plain. destruct c as [cid f|cid|cid var v]; apply V; reflexivity.
+      + unfold JW. cbn [c_mode c_st rn_of]. eapply Nat.le_trans; [|exact HW].
+        apply (W_run_le spec t _ tk s); [exact Hg|apply gq_exit_ctx| |].
+        * intros k0 E. rewrite (rem_rn_other _ _ _ _ _ E). apply rem_gq. apply gq_exit_ctx.
+        * intros k0 E. exact (rem_rn_self_le spec t k _ k0 E).
+  Qed.
 End AllocStep.
